@@ -292,7 +292,7 @@ macro_rules! pred_instance {
 //@ prop: C09
 //@ tier: quick
 //@ timeout: 1500
-//@ mem: 16
+//@ mem: 6
 //@ unwindset: binary_search_by=12
 //@ kernel: forget.rs equal_minute, equal_hour, equal_day, equal_week, equal_month, equal_quarter_year, equal_half_year, equal_year, always_false (the predicates KeepOptions::matches uses to decide "newest snapshot of its period")
 //@ bound: two snapshots with arbitrary valid civil times in 2014..=2021 (every ISO week-year edge 2014/15 .. 2021/22 occurs), first not older than second
@@ -333,10 +333,10 @@ fn any_counter() -> Option<i32> {
 
 //@ harness: c09_matches_step
 //@ prop: C09
-//@ tier: quick
+//@ tier: thorough
 //@ timeout: 3600
 //@ mem: 16
-//@ unwindset: binary_search_by=12; ^memcmp#0=70; encode_to|to_hex|hex=70; KeepOptions.*matches=11; c09_matches_step=11; matches_step_body=11
+//@ unwindset: binary_search_by=12; ^memcmp#0=70; encode_to|to_hex|hex=70; KeepOptions.*matches=11; c09_matches_step=11; matches_step_body=11; matches_step_masked=11
 //@ kernel: KeepOptions::matches (counter bookkeeping for keep-last and the eight period rules, keep-ids), the period predicates, always_false
 //@ bound: one call for a snapshot and its newer neighbour (both with arbitrary valid civil times in 2014..=2021, or no neighbour), symbolic has_next flag, all nine counters symbolic in {unset, -1, 0, 1, 2}, keep-ids empty / matching the snapshot / matching another id; keep-within and keep-tags unset
 //@ oracle: for every rule: the snapshot is a candidate iff it has no newer neighbour, or is the oldest (no next), or lies in another period than its neighbour (keep-last: always); a candidate is kept by that rule iff the rule's counter is not 0, and exactly then a positive counter is decremented by one (-1 stays); a matching keep-id keeps the snapshot without changing how the counters move; the number of reasons equals the number of applicable rules
@@ -362,7 +362,7 @@ pub(crate) fn c09_matches_step() { matches_step_body(); }
 //@ tier: thorough
 //@ timeout: 3400
 //@ mem: 24
-//@ unwindset: binary_search_by=12; ^memcmp#0=70; encode_to|to_hex|hex=70; KeepOptions.*matches=11; matches_step_body=11
+//@ unwindset: binary_search_by=12; ^memcmp#0=70; encode_to|to_hex|hex=70; KeepOptions.*matches=11; matches_step_body=11; matches_step_masked=11
 //@ kernel: as c09_matches_step
 //@ bound: as c09_matches_step with civil times in 2001..=2028 (a full 28-year cycle of year shapes)
 //@ oracle: as c09_matches_step
@@ -383,7 +383,74 @@ pub(crate) fn c09_matches_step() { matches_step_body(); }
 #[kani::stub(jiff::civil::ISOWeekDate::week, st_iso_week)]
 pub(crate) fn c09_matches_step_28y() { widen_years(); matches_step_body(); }
 
-fn matches_step_body() {
+
+//@ harness: c09_matches_step_a c09_matches_step_b c09_matches_step_c c09_matches_step_d
+//@ prop: C09
+//@ tier: quick
+//@ timeout: 2400
+//@ mem: 10
+//@ unwindset: binary_search_by=12; ^memcmp#0=70; encode_to|to_hex|hex=70; KeepOptions.*matches=11; matches_step_masked=11
+//@ kernel: as c09_matches_step
+//@ bound: as c09_matches_step (one call of KeepOptions::matches, civil times in 2014..=2021, symbolic has_last / has_next), with the symbolic counters restricted per instance, the other counters unset: _a = keep-last, minutely, hourly, daily; _b = weekly, monthly; _c = quarter-yearly, half-yearly, yearly; _d = keep-last + symbolic keep-ids.  The instances run in parallel; the harness with all nine counters symbolic at once (c09_matches_step, 12 min) is in the thorough tier
+//@ oracle: as c09_matches_step
+//@ stub: jiff accessors -> symbolic civil table (as c09_period_predicates); Backtrace::capture
+//@ assume: jiff's accessors agree with the calendar
+//@ outside: as c09_matches_step; interplay of counters from different instances (thorough tier)
+//@ replay: twin
+#[kani::proof]
+#[kani::unwind(5)]
+#[kani::stub(std::backtrace::Backtrace::capture, crate::error::verif_harness::stub_backtrace_capture)]
+#[kani::stub(jiff::Zoned::year, st_year)]
+#[kani::stub(jiff::Zoned::month, st_month)]
+#[kani::stub(jiff::Zoned::day_of_year, st_doy)]
+#[kani::stub(jiff::Zoned::hour, st_hour)]
+#[kani::stub(jiff::Zoned::minute, st_minute)]
+#[kani::stub(jiff::Zoned::iso_week_date, st_iso_week_date)]
+#[kani::stub(jiff::civil::ISOWeekDate::year, st_iso_year)]
+#[kani::stub(jiff::civil::ISOWeekDate::week, st_iso_week)]
+pub(crate) fn c09_matches_step_a() { matches_step_masked(0x00f, false); }
+#[kani::proof]
+#[kani::unwind(5)]
+#[kani::stub(std::backtrace::Backtrace::capture, crate::error::verif_harness::stub_backtrace_capture)]
+#[kani::stub(jiff::Zoned::year, st_year)]
+#[kani::stub(jiff::Zoned::month, st_month)]
+#[kani::stub(jiff::Zoned::day_of_year, st_doy)]
+#[kani::stub(jiff::Zoned::hour, st_hour)]
+#[kani::stub(jiff::Zoned::minute, st_minute)]
+#[kani::stub(jiff::Zoned::iso_week_date, st_iso_week_date)]
+#[kani::stub(jiff::civil::ISOWeekDate::year, st_iso_year)]
+#[kani::stub(jiff::civil::ISOWeekDate::week, st_iso_week)]
+pub(crate) fn c09_matches_step_d() { matches_step_masked(0x001, true); }
+#[kani::proof]
+#[kani::unwind(5)]
+#[kani::stub(std::backtrace::Backtrace::capture, crate::error::verif_harness::stub_backtrace_capture)]
+#[kani::stub(jiff::Zoned::year, st_year)]
+#[kani::stub(jiff::Zoned::month, st_month)]
+#[kani::stub(jiff::Zoned::day_of_year, st_doy)]
+#[kani::stub(jiff::Zoned::hour, st_hour)]
+#[kani::stub(jiff::Zoned::minute, st_minute)]
+#[kani::stub(jiff::Zoned::iso_week_date, st_iso_week_date)]
+#[kani::stub(jiff::civil::ISOWeekDate::year, st_iso_year)]
+#[kani::stub(jiff::civil::ISOWeekDate::week, st_iso_week)]
+pub(crate) fn c09_matches_step_b() { matches_step_masked(0x030, false); }
+#[kani::proof]
+#[kani::unwind(5)]
+#[kani::stub(std::backtrace::Backtrace::capture, crate::error::verif_harness::stub_backtrace_capture)]
+#[kani::stub(jiff::Zoned::year, st_year)]
+#[kani::stub(jiff::Zoned::month, st_month)]
+#[kani::stub(jiff::Zoned::day_of_year, st_doy)]
+#[kani::stub(jiff::Zoned::hour, st_hour)]
+#[kani::stub(jiff::Zoned::minute, st_minute)]
+#[kani::stub(jiff::Zoned::iso_week_date, st_iso_week_date)]
+#[kani::stub(jiff::civil::ISOWeekDate::year, st_iso_year)]
+#[kani::stub(jiff::civil::ISOWeekDate::week, st_iso_week)]
+pub(crate) fn c09_matches_step_c() { matches_step_masked(0x1c0, false); }
+
+fn matches_step_body() { matches_step_masked(0x1ff, true); }
+
+/// `mask`: which of the nine counters (keep-last, minutely, hourly, daily, weekly, monthly, quarter-yearly, half-yearly,
+/// yearly = bits 0..8) are symbolic; the others are unset.  `ids`: whether keep-ids is symbolic (else empty).
+fn matches_step_masked(mask: u16, ids: bool) {
     let c_new = any_civ();
     let c_sn = any_civ();
     store(0, &c_new);
@@ -395,16 +462,16 @@ fn matches_step_body() {
     let has_last: bool = kani::any();
     let has_next: bool = kani::any();
     let mut keep = KeepOptions::default();
-    keep.keep_last = any_counter();
-    keep.keep_minutely = any_counter();
-    keep.keep_hourly = any_counter();
-    keep.keep_daily = any_counter();
-    keep.keep_weekly = any_counter();
-    keep.keep_monthly = any_counter();
-    keep.keep_quarter_yearly = any_counter();
-    keep.keep_half_yearly = any_counter();
-    keep.keep_yearly = any_counter();
-    let ids_mode: u8 = kani::any();
+    if mask & 1 != 0 { keep.keep_last = any_counter(); }
+    if mask & 2 != 0 { keep.keep_minutely = any_counter(); }
+    if mask & 4 != 0 { keep.keep_hourly = any_counter(); }
+    if mask & 8 != 0 { keep.keep_daily = any_counter(); }
+    if mask & 16 != 0 { keep.keep_weekly = any_counter(); }
+    if mask & 32 != 0 { keep.keep_monthly = any_counter(); }
+    if mask & 64 != 0 { keep.keep_quarter_yearly = any_counter(); }
+    if mask & 128 != 0 { keep.keep_half_yearly = any_counter(); }
+    if mask & 256 != 0 { keep.keep_yearly = any_counter(); }
+    let ids_mode: u8 = if ids { kani::any() } else { 0 };
     kani::assume(ids_mode < 3);
     if ids_mode == 1 { keep.keep_ids = vec!["ab".to_string()]; }
     if ids_mode == 2 { keep.keep_ids = vec!["cd".to_string()]; }
@@ -428,7 +495,7 @@ fn matches_step_body() {
         k += 1;
     }
     assert!(n_reasons == want);
-    kani::cover!(ids_mode == 1 && before[0] == Some(1), "kept by id while keep-last still has a slot");
+    kani::cover!(!ids || mask & 1 == 0 || (ids_mode == 1 && before[0] == Some(1)), "kept by id while keep-last still has a slot");
     kani::cover!(has_last && has_next && want == 0, "a snapshot no rule keeps");
     std::mem::forget(keep); std::mem::forget(sn); std::mem::forget(newer); std::mem::forget(latest);
 }
